@@ -189,12 +189,28 @@ def k_trailer_after_setters(ctx, which, seed):
         t = c02.build(r.choice(c02.ROUTES), r.getrandbits(11), r.getrandbits(14), r.getrandbits(8), r.getrandbits(8), r.getrandbits(16), r.getrandbits(4), r.randbytes(r.randrange(0, 30)))
         steps = []
         for i in range(hist_len(r, 1, 7)):
-            op = r.choice(("pack", "calc_crc", "apid", "seq_count", "source_id", "app_data_same_len", "app_data", "to_space_packet", "unpack_own", "poison", "calc_crc_pack_cached"))
+            op = r.choice(("pack", "calc_crc", "apid", "seq_count", "source_id", "app_data_same_len", "app_data", "to_space_packet", "unpack_own", "poison", "calc_crc_pack_cached", "refused_own"))
             steps.append(op)
             if op == "pack":
                 emit(i, op, t.pack())
             elif op == "poison":
                 c02.poison_tc(r)
+            elif op == "refused_own":
+                # this very object is asked to serialise with a field that cannot be encoded (refused, whatever the error class),
+                # the field is corrected, and the next serialisation through the same route is what counts
+                good = t.source_id
+                t.source_id = r.choice((70000, 1 << 16, -1))
+                route = r.choice(("calc_crc", "to_space_packet", "pack"))
+                okr, _ = attempt(getattr(t, route))
+                ctx.table("refused_own_serialisation", f"tc.{route}:{'raised' if not okr else 'accepted'}")
+                t.source_id = good
+                if route == "calc_crc":
+                    t.calc_crc()
+                    emit(i, "calc_crc_pack_cached_after_refusal", t.pack(recalc_crc=False))
+                elif route == "to_space_packet":
+                    emit(i, "to_space_packet_after_refusal", t.to_space_packet().pack())
+                else:
+                    emit(i, "pack_after_refusal", t.pack())
             elif op == "calc_crc_pack_cached":
                 t.calc_crc()
                 emit(i, op, t.pack(recalc_crc=False))
@@ -224,12 +240,26 @@ def k_trailer_after_setters(ctx, which, seed):
                       r.getrandbits(4), r.getrandbits(3), ts, r.randbytes(r.randrange(0, 30)))
         steps = []
         for i in range(hist_len(r, 1, 7)):
-            op = r.choice(("pack", "calc_crc", "apid", "seq_count", "tm_data", "to_space_packet", "unpack_own", "poison", "calc_crc_pack_cached"))
+            op = r.choice(("pack", "calc_crc", "apid", "seq_count", "tm_data", "to_space_packet", "unpack_own", "poison", "calc_crc_pack_cached", "refused_own"))
             steps.append(op)
             if op == "pack":
                 emit(i, op, t.pack())
             elif op == "poison":
                 c03.poison_tm(r)
+            elif op == "refused_own":
+                good = t.pus_tm_sec_header.dest_id
+                t.pus_tm_sec_header.dest_id = r.choice((70000, 1 << 16, -1))
+                route = r.choice(("calc_crc", "to_space_packet", "pack"))
+                okr, _ = attempt(getattr(t, route))
+                ctx.table("refused_own_serialisation", f"tm.{route}:{'raised' if not okr else 'accepted'}")
+                t.pus_tm_sec_header.dest_id = good
+                if route == "calc_crc":
+                    t.calc_crc()
+                    emit(i, "calc_crc_pack_cached_after_refusal", t.pack(recalc_crc=False))
+                elif route == "to_space_packet":
+                    emit(i, "to_space_packet_after_refusal", t.to_space_packet().pack())
+                else:
+                    emit(i, "pack_after_refusal", t.pack())
             elif op == "calc_crc_pack_cached":
                 t.calc_crc()
                 emit(i, op, t.pack(recalc_crc=False))
@@ -252,7 +282,7 @@ def k_trailer_after_setters(ctx, which, seed):
         raise AssertionError(which)
     for i, op, p in produced:
         ctx.table("trailer_after_setters/producing_op", f"{which}:{op}")
-        prev = [s_ for s_ in steps[:i] if s_ not in ("pack", "to_space_packet", "calc_crc_pack_cached", "unpack_own")]
+        prev = [s_ for s_ in steps[:i] if s_ not in ("pack", "to_space_packet", "calc_crc_pack_cached", "unpack_own", "refused_own")]
         how = op if op != "final_pack" else "pack"
         if not ctx.check("trailer_is_crc", crc16(p[:-2]).to_bytes(2, "big") == p[-2:] and check_pus_crc(p) is True, "packed_trailer_wrong",
                          f"{which}/{how}" + ("/after_changes" if prev else ""), case, steps=steps, at_step=i, observed=p):
